@@ -969,3 +969,58 @@ func ReturnsConstBool(idx int) Effect {
 		})
 	}}
 }
+
+// FuelSpec: a recursive resolver keeps its fuel: the recursive call is reachable only while depth < max, and the cycle
+// passes depth+1.
+type FuelSpec struct {
+	ID        string
+	Fn        *ssa.Function // the function with the depth gate
+	Depth     string        // name of the depth parameter
+	Recursive Callee        // the call in Fn that continues the recursion (to itself or to the helper)
+	Back      *ssa.Function // optional helper that calls back into Fn
+	BackCall  Callee        // the call in Back to Fn
+}
+
+func (r *Report) Fuel(s FuelSpec) {
+	rule := "FUEL: recursion through " + s.Recursive.Desc + " is reachable only below the depth bound and passes depth+1"
+	if s.Fn == nil {
+		r.Lost(s.ID, rule, "anchored function not found")
+		return
+	}
+	// (1) gate: recursive call only via depth >= max being false
+	r.Gate(Gate{ID: s.ID + ".bound", Fn: s.Fn, Effect: CallEffect(s.Recursive),
+		Check: CmpCheck(s.Depth+" >= max is false", token.LSS, ParamV(s.Depth), AnyV(), true)})
+	// (2) some call on the cycle passes depth+1 and the others pass depth (never a constant or a smaller value)
+	inc := 0
+	var bad []string
+	check := func(fn *ssa.Function, c Callee) {
+		for _, ci := range Calls(fn, c) {
+			found := false
+			for _, a := range ci.Common().Args {
+				if AddConstV(ParamV(s.Depth), 1).M(a) {
+					inc++
+					found = true
+				} else if ParamV(s.Depth).M(a) {
+					found = true
+				}
+			}
+			if !found {
+				bad = append(bad, "call at "+r.P.Pos(ci.Pos())+" does not pass the depth counter")
+			}
+		}
+	}
+	check(s.Fn, s.Recursive)
+	if s.Back != nil {
+		check(s.Back, s.BackCall)
+	}
+	key := s.ID + ".increment @ " + r.P.FuncName(s.Fn)
+	r.Sites += inc + len(bad)
+	if len(bad) > 0 || inc == 0 {
+		if inc == 0 {
+			bad = append(bad, "no call on the recursive cycle passes depth+1")
+		}
+		r.Bad(key, rule, r.P.Pos(s.Fn.Pos()), strings.Join(bad, "; "))
+		return
+	}
+	r.OK(key, rule, r.P.Pos(s.Fn.Pos()), fmt.Sprintf("%d incrementing call(s) on the cycle", inc), true)
+}
